@@ -11,8 +11,8 @@ MANIFEST = {
     "text": "Coq theorems over the unit table regenerated from the built crate on every run: exhaustive (vm_compute, "
             "bound = the table) identifier resolution / alias / ambiguity / category / prefix-ratio theorems, and "
             "unbounded exact-rational laws (self-identity, there-and-back, composition) about the same conversion code "
-            "that is run in binary64 against units::convert and the convert built-in; float self-identity refuted "
-            "(known finding) and proved for the proposed repair",
+            "that is run in binary64 against units::convert and the convert built-in; self-conversion identity proved "
+            "for every arithmetic instance (bit-exact in binary64) since fix e6d26e9",
     "note": "trusted: Coq kernel + vm_compute; harness dump-units (reflective dump of get_all_units()); the hand "
             "transcription of resolve_unit/convert (validated by the UNITS/RESOLVE/LOWER correspondence streams); "
             "Rust to_lowercase modelled only on ASCII + the dumped non-ASCII characters; axioms: see evidence",
@@ -510,13 +510,11 @@ def law_search(tb, impl, res, rng, tier, known, pool=None):
         rb = ok_bits(r)
         if rb is None:
             L.fail("converting a unit to itself fails", {"unit": canon(u)}, [(a, b, v)])
-        elif b2f(rb) != b2f(v) and not (b2f(v) != b2f(v)):
-            if close_enough(tb, [u], rb, v, 2, [b2f(v)]) and "C17-self-float" in known_ids:
+        elif rb != v and not (b2f(v) != b2f(v)):
+            if "C17-self-float" in known_ids and close_enough(tb, [u], rb, v, 2, [b2f(v)]):
                 L.known_hits["C17-self-float"] += 1
-            elif close_enough(tb, [u], rb, v, 2, [b2f(v)]):
-                L.fail("converting a unit to itself is not the identity (rounding: v*c/c)", {"unit": canon(u)}, [(a, b, v)])
             else:
-                L.fail("converting a unit to itself is far from the identity", {"unit": canon(u)}, [(a, b, v)])
+                L.fail("converting a unit to itself is not the identity", {"unit": canon(u)}, [(a, b, v)])
     # ---- L2 aliases behave identically
     for u, c0, al, x, v in plan_alias:
         L.count("alias-identical")
@@ -636,24 +634,13 @@ def run_units_stream(tb, h, res, rng, tier):
     lines = ["%s\t%s\t%s" % (c.hexs(a), c.hexs(b), ",".join("%016x" % v for v in mags[(a, b)])) for a, b in keys]
     impl_out = c.harness_lines_resilient(h, "units", lines, ["--builtin"])
 
-    def model(fixed, ks):
-        exprs = ["show_units_line %s %s %s [%s]" % ("true" if fixed else "false", cq(a), cq(b),
-                                                    "; ".join("0x%016x" % v for v in mags[(a, b)])) for a, b in ks]
-        return c.coq_eval_batch(REQS, "", exprs, "c17u" + ("f" if fixed else ""))
-
-    mism, fixed_like, evals, bad = [], 0, 0, []
+    exprs = ["show_units_line %s %s [%s]" % (cq(a), cq(b), "; ".join("0x%016x" % v for v in mags[(a, b)])) for a, b in keys]
+    mism, evals, bad = [], 0, []
     try:
-        mout = model(False, keys)
+        mout = c.coq_eval_batch(REQS, "", exprs, "c17u")
     except c.BrokenTie as e:
         res.tie_broken(e.what, e.detail)
         mout = [None] * len(keys)
-    diff = [k for k, m, i in zip(keys, mout, impl_out) if m is not None and m != i]
-    fixed_out = {}
-    if diff:
-        try:
-            fixed_out = dict(zip(diff, model(True, diff)))
-        except c.BrokenTie as e:
-            res.tie_broken(e.what, e.detail)
     by_tag = {}
     for k, m, i in zip(keys, mout, impl_out):
         by_tag.setdefault(pairs[k], [0, 0])
@@ -665,13 +652,10 @@ def run_units_stream(tb, h, res, rng, tier):
             continue
         if m == i:
             by_tag[pairs[k]][1] += 1
-        elif fixed_out.get(k) == i:
-            fixed_like += 1          # behaves like the repaired convert (self-conversion short-circuit)
-            by_tag[pairs[k]][1] += 1
         else:
             mism.append((k, m, i))
     return {"keys": keys, "pairs": pairs, "mags": mags, "impl": dict(zip(keys, impl_out)), "mism": mism,
-            "fixed_like": fixed_like, "evals": evals, "bad": bad, "by_tag": by_tag}
+            "evals": evals, "bad": bad, "by_tag": by_tag}
 
 
 def run_resolve_stream(tb, h, res, rng, tier):
@@ -742,6 +726,27 @@ def replay_known(e, impl, h):
     return True, "unknown witness kind"
 
 
+def run_corpus(impl, res):
+    """regression cases of fixed findings (corpus/C17/*.json): run first; a failure is a violation"""
+    d = os.path.join(c.VERIF, "corpus", PID)
+    n = 0
+    for fn in sorted(os.listdir(d)) if os.path.isdir(d) else []:
+        if not fn.endswith(".json"):
+            continue
+        with open(os.path.join(d, fn)) as f:
+            doc = json.load(f)
+        for cs in doc.get("cases", []):
+            n += 1
+            v = int(cs["value_bits"], 16)
+            got = impl.get(cs["from"], cs["to"], v)
+            if got != cs["expect"]:
+                res.violation("regression of a fixed finding (corpus/C17/%s): %s" % (fn, doc.get("comment", "")),
+                              {"kind": "units-law", "law": "corpus", "detail": {"expected": cs["expect"]},
+                               "calls": [[cs["from"], cs["to"], cs["value_bits"], repr(b2f(v))]], "observed": [got],
+                               "rerun": "./check C17 --replay <this file>"})
+    return n
+
+
 def do_replay(h, path):
     with open(path) as f:
         rp = json.load(f)
@@ -771,6 +776,7 @@ def main(argv):
         return do_replay(h, replay)
     known = c.open_known(PID)
     impl = Impl(h)
+    ncorpus = run_corpus(impl, res)
     try:
         tb = regen_units(h)
     except c.BrokenTie as e:
@@ -847,9 +853,9 @@ def main(argv):
     res.coverage["exhaustive_table_theorems"] = {"units": len(tb.units), "identifiers": sum(len(u["ids"]) for u in tb.units),
                                                  "table_digest": tb.digest}
     res.streams["UNITS"] = {"pairs": len(us["keys"]), "conversions": us["evals"], "mismatches": len(us["mism"]),
-                            "behaves_like_repaired_convert": us["fixed_like"],
                             "by_kind(pairs,agree)": us["by_tag"]}
     res.streams["RESOLVE+LOWER"] = {"identifiers": len(rs["pool"]), "mismatches": len(rs["mism"]), "impl_answers": rs["kinds"]}
+    res.streams["CORPUS"] = {"cases": ncorpus}
     res.streams["BUILTIN"] = {"argument_tuples": bs["cases"], "mismatches": len(bs["mism"])}
     res.coverage["exhaustive_table_theorems"]["prefix_pairs_in_theorems"] = bs["coq_prefix_pairs"]
     res.coverage["exhaustive_table_theorems"]["identifiers_listed_for_two_units"] = bs["coq_dup_idents"]
